@@ -1,9 +1,11 @@
 """C06 -- absolutely positioned children influence nothing outside their subtree (except content size / paint order).
 proof: Props/C06.v (grid placement: absolute children are never placed, but the size estimate reads their styles -- refuted with a
 model witness, complement proved: nothing changes while every absolute child is `harmless`; engine skeleton: AbsBlind algorithms
-keep trees related up to content size outside out-of-flow subtrees);
+keep trees related up to content size outside out-of-flow subtrees; block: the in-flow kernel, the translated item pipelines and the block
+algorithm as a resumption ARE AbsBlind -- theorems, see notes/C06.md wave 3b);
 K: grid containers with display:none / absolute children carrying definite lines vs Model/PlacementRun.v (`vh c05 cases`, the C08
-protocol and runner, half of the children absolute) -- the model reproduces the known finding, so K covers it exactly;
+protocol and runner, half of the children absolute) -- the model reproduces the known finding, so K covers it exactly; K3: block containers with absolute children between in-flow ones
+(`vh c10 kcases3 .. 300 0`: recorded child outputs) vs Model/BlockRun.v run_case2 = generate_item_list + block_inflow + compute_inner's decisions;
 search: metamorphic oracle on FRESH trees through the public API (`vh c06 oracle`): one absolute node neutralised to a bare
 position:absolute leaf, everything outside its subtree compared bit for bit except content_size of its ancestors and order of its
 siblings; mismatches of the known class (known_findings.json C06/grid-estimate-absolute) are KNOWN, anything else a VIOLATION."""
@@ -20,6 +22,17 @@ THEOREMS = [
     'grid_placement_run ec er fl (map (neutralise Absolute) cs) = grid_placement_run ec er fl cs',
     'C06_abs_blind_engine : AbsBlind algo ab oeq leq -> asim t t\' -> memo f t i = Some (o, t1) -> memo f\' t\' i = Some (o\', t1\') -> '
     'asim t1 t1\' /\\ (ab (style t) = false -> oeq o o\')',
+    'C06_block_inflow_abs_blind : Forall2 xrel xs xs\' (both absolute, or same in-flow item and child outputs equal up to content_size) -> '
+    'Forall2 rrel (io_results (block_inflow P xs)) (io_results (block_inflow P xs\')) /\\ same in-flow records /\\ same static positions /\\ '
+    'io_height, io_first_set, io_last_set equal /\\ block_can_collapse_through, block_outer_height, block_output_margins equal /\\ '
+    '(Forall2 xrel_strict xs xs\' -> io_content_size equal)   [any Num instance]',
+    'C06_block_inflow_delete_absolute : block_inflow P (in_flow_only xs) = block_inflow P xs with the absolute records filtered out',
+    'C06_flex_items_ignore_absolute : agree_except (s_absolute position) f f\' cs -> flex_generate_items f position bgm build cs = '
+    'flex_generate_items f\' position bgm build cs   [flex_generate_items is TRANSLATED from generate_anonymous_flex_items on every run]',
+    'C06_grid_items_ignore_absolute, C06_block_items_absolute_flagged, C06_block_source_predicates, C06_block_content_width_ignores_absolute',
+    'C06_block_algorithm_abs_blind : AbsChildLocal abs_child -> AbsBlind (block_alg pre abs_child) bs_visible_absolute out_eq lay_eq   '
+    '[block_alg = compute_inner as a resumption, Model/BlockAlg.v]',
+    'C06_block_engine_instance : the conclusion of C06_abs_blind_engine for engines of block containers and leaves, no premise on the algorithms',
 ]
 
 
@@ -35,8 +48,11 @@ def run(rep, tier, seed, replay=None):
         'grid placement model Model/Placement.v: hand transcription of placement.rs / implicit_grid.rs / the child filters of grid/mod.rs '
         '(tied by K + fingerprints); tables (child_min_line_max_line_span, ...) regenerated from the source',
         'engine skeleton Model/Engine.v is hand-written (tied by the engine correspondence of C01 / C05 / C15)',
-        'interface hypothesis AbsBlind on the real algorithms: not proved for flex / block / the grid tail; validated through the metamorphic '
+        'interface hypothesis AbsBlind: PROVED for the block algorithm as modelled in Model/BlockAlg.v (compute_inner as a resumption, assembled from '
+        'the translated item pipeline, Model/Block.v inflow_step (K1/K2/K3 of C10/C06) and an absolute-item routine abstracted to "addresses only '
+        'item.node_id", which the translator checks syntactically); NOT proved for the flex tail and the grid tail: validated through the metamorphic '
         'oracle on the implementation; REFUTED for grid on the known class (C06_grid_estimate_absolute_refuted)',
+        'translator/gen_filters.py (item-generation pipelines, per-item predicates of block.rs, syntactic locality checks); fails closed',
         'that track counts determine the container size (track sizing, 7px auto rows: 28 vs 7) is observed on the implementation '
         '(`vh c06 witness`), not modelled'])
     rc, out, binp, dt = build_harness('release')
@@ -55,6 +71,9 @@ def run(rep, tier, seed, replay=None):
             rep.add_broken('correspondence', 'placement K', str(ex)[-1500:])
     else:
         bad = H.placement_k(rep, 'C06', binp, seed + 606, 12000 if escalate else 2500, kind=2)
+    # ---- K3: block containers with absolute / hidden children interleaved, vs the block model the new theorems are about
+    if not replay:
+        H.block_k(rep, 'C06', binp, seed + 660, 3600 if escalate else 900, p_absolute=300, p_hidden=0)
     for t in THEOREMS:
         rep.cov['samples'].append({'theorem': t})
     # ---- search
